@@ -651,7 +651,16 @@ def zero_edges(si, what):
     return None
 
 
-def guarded_defs(fn, op, depth=8):
+def guarded_defs(fn, op, depth=8, chains=False):
+    """see _guarded_defs; with chains=True the first component is the list of blocks of every assignment on the way from
+    the operand back to the value (outermost first) instead of the innermost one"""
+    out = _guarded_defs(fn, op, depth)
+    if chains:
+        return out
+    return [((ch[-1] if ch else None), c, e) for ch, c, e in out]
+
+
+def _guarded_defs(fn, op, depth=8):
     """The definitions of the value in operand `op`, one per assignment of the variable it was copied from, each with the
     block and the path condition (path_condition conjuncts, or None) under which that assignment runs:
     [(block|None, conjuncts|None, expr)].  Plain copies and field reads of a copied tuple/struct are looked through, so
@@ -659,31 +668,68 @@ def guarded_defs(fn, op, depth=8):
     from .core import _apply_proj
     c = op.get("const") if isinstance(op, dict) else None
     if c is not None:
-        return [(None, [], fn.expr(op))]
+        return [([], [], fn.expr(op))]
     pl = op.get("copy") or op.get("move") or op
     l, proj = pl["l"], list(pl["p"])
     for _ in range(depth):
         if 1 <= l <= fn.nargs:
             break
         ds = fn.defs(l)
+        if proj and proj[0] == "*" and len(ds) == 1 and not ds[0][0] and ds[0][3] == "rv" and ds[0][4]["k"] == "ref" and not ds[0][4].get("mut"):
+            # *r with r = &place assigned once: the place itself
+            src = ds[0][4]["place"]
+            l, proj = src["l"], list(src["p"]) + proj[1:]
+            continue
         if len(ds) == 1 and not ds[0][0] and ds[0][3] == "rv" and ds[0][4]["k"] == "use":
             a = ds[0][4]["a"]
             src = a.get("copy") or a.get("move")
-            if src is None or "*" in [x for x in src["p"] if isinstance(x, str)]:
+            if src is None:
                 break
             l, proj = src["l"], list(src["p"]) + proj
             continue
         break
     ds = fn.defs(l)
     if not ds or any(d[0] for d in ds) or 1 <= l <= fn.nargs:
-        return [(None, [], deep_strip(fn.expr(op)))]
+        return [([], [], deep_strip(fn.expr(op)))]
     out = []
     for (dp, b, i, kind, payload) in ds:
+        if kind == "rv" and payload["k"] == "use" and depth > 1 and (payload["a"].get("copy") or payload["a"].get("move")) is not None:
+            # assigned from another variable on this edge: that variable's own definitions, under this edge's condition too
+            src = payload["a"].get("copy") or payload["a"].get("move")
+            if not (1 <= src["l"] <= fn.nargs) and src["l"] != l:
+                here = path_condition(fn, b)
+                for ch2, c2, e2 in _guarded_defs(fn, {"copy": {"l": src["l"], "p": list(src["p"]) + proj}}, depth - 1):
+                    out.append(([b] + ch2, None if (here is None or c2 is None) else here + [x for x in c2 if x not in here], e2))
+                continue
+        if kind == "rv" and payload["k"] == "agg" and depth > 1 and proj:
+            # a field of a value built in place on this edge: the operand stored in that field
+            rest, fi = None, None
+            if payload.get("agg") == "adt" and len(proj) >= 2 and isinstance(proj[0], dict) and proj[0].get("as") == payload.get("variant") \
+                    and isinstance(proj[1], dict) and "f" in proj[1] and str(proj[1]["f"]) in [str(n_) for n_ in payload.get("field_names", [])]:
+                fi, rest = [str(n_) for n_ in payload["field_names"]].index(str(proj[1]["f"])), proj[2:]
+            elif payload.get("agg") == "adt" and isinstance(proj[0], dict) and "f" in proj[0] and str(proj[0]["f"]) in [str(n_) for n_ in payload.get("field_names", [])] and not any(isinstance(x_, dict) and "as" in x_ for x_ in proj[:1]):
+                fi, rest = [str(n_) for n_ in payload["field_names"]].index(str(proj[0]["f"])), proj[1:]
+            elif payload.get("agg") == "tuple" and isinstance(proj[0], dict) and "f" in proj[0] and str(proj[0]["f"]).isdigit() and int(proj[0]["f"]) < len(payload["fields"]):
+                fi, rest = int(proj[0]["f"]), proj[1:]
+            if fi is not None:
+                fop = payload["fields"][fi]
+                src = fop.get("copy") or fop.get("move")
+                here = path_condition(fn, b)
+                if src is not None and not (1 <= src["l"] <= fn.nargs):
+                    for ch2, c2, e2 in _guarded_defs(fn, {"copy": {"l": src["l"], "p": list(src["p"]) + list(rest)}}, depth - 1):
+                        out.append(([b] + ch2, None if (here is None or c2 is None) else here + [x for x in c2 if x not in here], e2))
+                    continue
         if kind == "rv":
             e = fn._rvalue(payload, frozenset([l]), 40, b)
         elif kind == "call":
             e = fn._call_expr(payload, b, frozenset([l]), 40)
         else:
-            return [(None, [], deep_strip(fn.expr(op)))]
-        out.append((b, path_condition(fn, b), _apply_proj(e, proj, fn, frozenset([l]), 40)))
-    return out
+            return [([], [], deep_strip(fn.expr(op)))]
+        out.append(([b], path_condition(fn, b), _apply_proj(e, proj, fn, frozenset([l]), 40)))
+    uniq, seen_ = [], set()
+    for b_, c_, e_ in out:
+        k_ = (tuple(b_), repr(e_))
+        if k_ not in seen_:
+            seen_.add(k_)
+            uniq.append((b_, c_, e_))
+    return uniq
